@@ -33,6 +33,7 @@ PS = "engine::state::PeerState::"
 
 EXPLANATION += ' (R6) the document-level operations (NamespaceStates::start_connect / accept_request / finish / abort_connect) evaluated on a nested map model: only the slot of (this document, this peer) changes, an unknown document gets no entry. (R7) the per-peer slot map only grows; whole documents are discarded only by leave.'
 EXPLANATION += ' (R8, round 9) = the declined-session cells of C10.R9 (what the completion handler is told about a request we declined). (R1, round 9) finish also on a dial reported with another reason than the one recorded: still the owner, the slot is freed.'
+EXPLANATION += ' (R9, round 10) the same evaluation: the follow-up dial (reason Resync, this document, this peer) happens exactly when finish() hands the resync flag over, on every cell.'
 
 
 def variant_names(f, adt):
